@@ -40,11 +40,11 @@ fn has_calls(ops: &[u32]) -> bool {
 fn fams_for(tier: &str, which: &str) -> Vec<&'static str> {
     let _ = tier;
     match which {
-        "c02" => vec!["adv", "inframe", "padx", "nearstart", "hist", "corpus", "mut"],
-        "c17" => vec!["adv", "inframe", "padx", "nearstart", "hist", "histframe", "noise", "corpus", "mut"],
-        "c15" => vec!["adv", "inframe", "padx", "nearstart", "noise", "corpus", "mut"],
-        "c14" => vec!["hist", "histframe", "inframe", "padx", "adv3", "corpus", "mut"],
-        "c05" => vec!["hist", "histframe", "inframe", "padx", "noise", "corpus", "mut"],
+        "c02" => vec!["adv", "inframe", "rawcrc", "padx", "nearstart", "hist", "corpus", "mut"],
+        "c17" => vec!["adv", "inframe", "rawcrc", "padx", "nearstart", "hist", "histframe", "noise", "corpus", "mut"],
+        "c15" => vec!["adv", "inframe", "rawcrc", "padx", "nearstart", "noise", "corpus", "mut"],
+        "c14" => vec!["hist", "histframe", "inframe", "rawcrc", "padx", "adv3", "corpus", "mut"],
+        "c05" => vec!["hist", "histframe", "inframe", "rawcrc", "padx", "noise", "corpus", "mut"],
         _ => vec![],
     }
 }
